@@ -8,12 +8,16 @@
  *                                  at  coap_register_async(delay 0 = indefinite) + coap_async_trigger() after D ms
  *                                  dc  handler returns no code (empty ACK); the application sends a separate CON after D ms
  *                                  dn  same, separate NON
+ *                                  da  same, but sent as an ACK-typed message with a message id of its own (an ACK that
+ *                                      matches nothing on the client's send queue; libcoap's client hands it to
+ *                                      handle_response, where only last_ack_mid filters duplicates)
  *             a trailing '+' = the server application remembers the tokens it has answered and answers a duplicate
  *             request that arrives afterwards with nothing (libcoap then sends just an empty ACK)
  *   D         server delay in ms (>= 1)
  *   cmid0/smid0  initial tx_mid of the client / server session      rc/rs  PRNG byte for the client / server context
  *   mode      q = next request when the whole system is quiescent; e = next request as soon as the previous concluded
- *   reqs      comma list  <C|N><method 1..4>          e.g. C1,N2
+ *   reqs      comma list  <C|N><method 1..4>[/<token>]     e.g. C1,N2,C1/-,C3/a1b2   token: lower-case hex, <= 8 bytes,
+ *             "-" = the zero-length token; default = c0+i 07 for the i-th request
  *   verdicts  k-th response-handler call returns o (COAP_RESPONSE_OK) or f (FAIL); default o; "-" = empty
  *   fates     fate of the k-th datagram transmitted (both directions, in order of transmission):
  *             d<ms> deliver after ms | x drop | u<ms>+<ms> two copies; default d0; "-" = empty
@@ -28,13 +32,13 @@
 #define MAXFLY 256
 #define MAXPEND 32
 
-enum { P_PB, P_AC, P_AT, P_DC, P_DN };
+enum { P_PB, P_AC, P_AT, P_DC, P_DN, P_DA };
 static int pers, pers_dedup, mode_eager;
 static unsigned Dms, cmid0, smid0;
 static uint8_t rc_byte, rs_byte;
 static int cur_side; /* 0 client, 1 server: who is running inside libcoap */
 
-static struct { int con, method; uint8_t tok[2]; int sent, nrsp, nnack; int mid; } reqs[MAXREQ];
+static struct { int con, method; uint8_t tok[8]; size_t tkl; int sent, nrsp, nnack; int mid; } reqs[MAXREQ];
 static int nreqs, cur_req;
 static char verdicts[256]; static int nverd, verd_pos;
 static struct { int kind; unsigned d1, d2; } fates[MAXFATE];
@@ -82,8 +86,10 @@ static void x_tx_hook(const sim_dgram_t *d) {
 }
 
 /* ------------------------------------------------------------------ client callbacks */
+/* the request the application is waiting for if it carries this token, else the first request with this token */
 static int find_req(const uint8_t *tok, size_t tkl) {
-  for (int i = 0; i < nreqs; i++) if (tkl == 2 && !memcmp(tok, reqs[i].tok, 2)) return i;
+  if (cur_req >= 0 && tkl == reqs[cur_req].tkl && !memcmp(tok, reqs[cur_req].tok, tkl)) return cur_req;
+  for (int i = 0; i < nreqs; i++) if (tkl == reqs[i].tkl && !memcmp(tok, reqs[i].tok, tkl)) return i;
   return -1;
 }
 static coap_response_t x_on_response(coap_session_t *session, const coap_pdu_t *sent, const coap_pdu_t *rcvd, const coap_mid_t mid) {
@@ -177,9 +183,10 @@ static void srv_app_timers(void) {
       coap_async_trigger(pend[best].async);
       coap_io_prepare_epoll(srv, sim_now);
     } else {
-      coap_pdu_t *p = coap_pdu_init(pers == P_DC ? COAP_MESSAGE_CON : COAP_MESSAGE_NON, COAP_RESPONSE_CODE_CONTENT,
+      coap_pdu_t *p = coap_pdu_init(pers == P_DC ? COAP_MESSAGE_CON : pers == P_DA ? COAP_MESSAGE_ACK : COAP_MESSAGE_NON,
+                                    COAP_RESPONSE_CODE_CONTENT,
                                     coap_new_message_id(pend[best].s), coap_session_max_pdu_size(pend[best].s));
-      coap_add_token(p, pend[best].tkl, pend[best].tok);
+      if (pend[best].tkl) coap_add_token(p, pend[best].tkl, pend[best].tok);
       mark_answered(pend[best].tok, pend[best].tkl);
       coap_send(pend[best].s, p);
     }
@@ -195,17 +202,34 @@ static int parse_line(char **w, int n) {
   pers_dedup = 0;
   if (l == 3 && w[1][2] == '+') { pers_dedup = 1; w[1][2] = 0; }
   if (!strcmp(w[1], "pb")) pers = P_PB; else if (!strcmp(w[1], "ac")) pers = P_AC; else if (!strcmp(w[1], "at")) pers = P_AT;
-  else if (!strcmp(w[1], "dc")) pers = P_DC; else if (!strcmp(w[1], "dn")) pers = P_DN; else return 0;
+  else if (!strcmp(w[1], "dc")) pers = P_DC; else if (!strcmp(w[1], "dn")) pers = P_DN;
+  else if (!strcmp(w[1], "da")) pers = P_DA; else return 0;
   Dms = (unsigned)atoi(w[2]); cmid0 = (unsigned)atoi(w[3]); smid0 = (unsigned)atoi(w[4]);
   rc_byte = (uint8_t)atoi(w[5]); rs_byte = (uint8_t)atoi(w[6]);
   if (Dms < 1) return 0;
   if (!strcmp(w[7], "q")) mode_eager = 0; else if (!strcmp(w[7], "e")) mode_eager = 1; else return 0;
   nreqs = 0;
   for (p = strtok(w[8], ","); p; p = strtok(NULL, ",")) {
-    if (nreqs >= MAXREQ || strlen(p) != 2 || (p[0] != 'C' && p[0] != 'N') || p[1] < '1' || p[1] > '4') return 0;
+    size_t pl = strlen(p);
+    if (nreqs >= MAXREQ || pl < 2 || (p[0] != 'C' && p[0] != 'N') || p[1] < '1' || p[1] > '4') return 0;
     memset(&reqs[nreqs], 0, sizeof(reqs[0]));
     reqs[nreqs].con = p[0] == 'C'; reqs[nreqs].method = p[1] - '0';
-    reqs[nreqs].tok[0] = (uint8_t)(0xc0 + nreqs); reqs[nreqs].tok[1] = 0x07;
+    if (pl == 2) { reqs[nreqs].tok[0] = (uint8_t)(0xc0 + nreqs); reqs[nreqs].tok[1] = 0x07; reqs[nreqs].tkl = 2; }
+    else {
+      const char *t = p + 3;
+      size_t tl = pl - 3;
+      if (p[2] != '/' || !tl) return 0;
+      if (!strcmp(t, "-")) reqs[nreqs].tkl = 0;
+      else {
+        if (tl % 2 || tl > 16) return 0;
+        for (size_t k = 0; k < tl; k++) {
+          int c = t[k], v = c >= '0' && c <= '9' ? c - '0' : c >= 'a' && c <= 'f' ? c - 'a' + 10 : -1;
+          if (v < 0) return 0;
+          reqs[nreqs].tok[k / 2] = (uint8_t)((reqs[nreqs].tok[k / 2] << 4) | v);
+        }
+        reqs[nreqs].tkl = tl / 2;
+      }
+    }
     nreqs++;
   }
   if (!nreqs) return 0;
@@ -325,7 +349,7 @@ static void step(char *line) {
         reqs[cur_req].sent = 1;
         sim_logf("send@%llu:%d:%d", (unsigned long long)sim_now, cur_req, reqs[cur_req].mid);
         p = sim_make_pdu(cs, reqs[cur_req].con ? COAP_MESSAGE_CON : COAP_MESSAGE_NON, reqs[cur_req].method, reqs[cur_req].mid,
-                         reqs[cur_req].tok, 2, NULL, 0);
+                         reqs[cur_req].tok, reqs[cur_req].tkl, NULL, 0);
         coap_add_option(p, COAP_OPTION_URI_PATH, 1, (const uint8_t *)"r");
         coap_send(cs, p);
         continue;
